@@ -181,7 +181,7 @@ class Exec:
                 elif req.op == "GET" and req.key == lock_key and req.effect == "read":
                     lp = handles[me.name].metadata_manager.lock_provider
                     body = store.objects.get((req.bucket, req.key))
-                    content = body.body.decode() if body is not None else None
+                    content = body.body.decode().split(":", 1)[0] if body is not None else None
                     if content != getattr(lp, "lock_id", None):
                         s["fenced"] = True
                         sched.count("fence_saw_other_owner")
